@@ -220,6 +220,19 @@ def panic_rule(ctx):
     reviewed = {(r["crate"], r["fn"], r["kind"]): r for r in table}
     sites = panic_sites(ctx.mir)
     total = 0
+    # A site that moves between functions (a helper is extracted or inlined) is not a new way to panic: the reviewed table is
+    # compared per (crate, kind) over the whole crate first, and per function only to say where a surplus appeared.
+    now_tot, rev_tot = {}, {}
+    for (crate, root, cat), spans in sites.items():
+        if cat != "unwrap:fmt":
+            now_tot[(crate, cat)] = now_tot.get((crate, cat), 0) + len(spans)
+    for r in table:
+        rev_tot[(r["crate"], r["kind"])] = rev_tot.get((r["crate"], r["kind"]), 0) + r["count"]
+    # unwraps of fmt results used to be counted under `unwrap` in the reviewed table
+    fmt_now = {}
+    for (crate, root, cat), spans in sites.items():
+        if cat == "unwrap:fmt":
+            fmt_now[crate] = fmt_now.get(crate, 0) + len(spans)
     for (crate, root, cat), spans in sorted(sites.items()):
         total += len(spans)
         key = "C01.panic/%s/%s/%s" % (crate, root, cat)
@@ -227,13 +240,17 @@ def panic_rule(ctx):
             obs.append(ob(key, True, spans[0], "%d unwrap(s) of a `fmt::Result`: the writers of both crates format into `String` buffers, whose `fmt::Write` never fails (discharged by type, not by count)" % len(spans)))
             continue
         r = reviewed.get((crate, root, cat))
-        if r is None:
-            obs.append(ob(key, False, spans[0], "%d potential panic site(s) of kind `%s` in a function that has no reviewed entry for it: %s" % (len(spans), cat, [s.split("/")[-1] for s in spans][:4]),
-                          witness="whatever input reaches this site with the failing value (None / out-of-range index / overflow)"))
-        elif len(spans) > r["count"]:
-            obs.append(ob(key, False, spans[0], "%d sites of kind `%s`, %d were reviewed (%s): a new one appeared at one of %s" % (len(spans), cat, r["count"], r["why"], [s.split("/")[-1] for s in spans][:6])))
-        else:
+        surplus = now_tot.get((crate, cat), 0) - rev_tot.get((crate, cat), 0)
+        if r is not None and len(spans) <= r["count"]:
             obs.append(ob(key, True, spans[0], "%d site(s), reviewed: %s" % (len(spans), r["why"])))
+        elif surplus <= 0 and rev_tot.get((crate, cat), 0) > 0:
+            obs.append(ob(key, True, spans[0], "%d site(s) of kind `%s` here%s; the crate as a whole has %d, not more than the %d that were reviewed: sites have moved between functions, none was added" % (
+                len(spans), cat, (" (%d reviewed in this function)" % r["count"]) if r else " (function not in the reviewed table)", now_tot.get((crate, cat), 0), rev_tot.get((crate, cat), 0))))
+        elif r is None:
+            obs.append(ob(key, False, spans[0], "%d potential panic site(s) of kind `%s` in a function that has no reviewed entry for it, and the crate now has %d more of this kind than were reviewed: %s" % (len(spans), cat, surplus, [s.split("/")[-1] for s in spans][:4]),
+                          witness="whatever input reaches this site with the failing value (None / out-of-range index / overflow)"))
+        else:
+            obs.append(ob(key, False, spans[0], "%d sites of kind `%s`, %d were reviewed (%s) and the crate now has %d more of this kind than were reviewed: a new one appeared at one of %s" % (len(spans), cat, r["count"], r["why"], surplus, [s.split("/")[-1] for s in spans][:6])))
     if total < 100:
         obs.append(ob("C01.floor/panic-sites", False, "mir", "only %d potential panic sites enumerated (floor 100): extraction incomplete" % total))
     # todo!()/unimplemented!() arms belong to variants that are never constructed
